@@ -322,6 +322,13 @@ def nested(kind, depth, core="1"):
         return "let x = " + "TRACE " * depth + core + ";"
     if kind == "cast":
         return "let x = " + "int(" * depth + core + ")" * depth + ";"
+    if kind == "in-bareword":
+        # a bareword on the left of `in`, nested on the right
+        return "let a = 1; let x = " + "a in {b = " * depth + core + "}" * depth + ";"
+    if kind == "in-string":
+        return "let x = " + "\"a\" in {b = " * depth + core + "}" * depth + ";"
+    if kind == "is":
+        return "let x = " + "(" * depth + core + (" is \"int\")" * depth) + ";"
     if kind == "constraint-list":
         return "let x :: " + "[" * depth + "1" + "]" * depth + " = " + "[" * depth + core + "]" * depth + ";"
     raise ValueError(kind)
@@ -348,4 +355,4 @@ def nested_broken(kind, depth):
 
 
 NEST_KINDS = ["paren", "list", "tuple", "selector", "not", "call", "copy", "binary", "func", "select", "module", "concat",
-              "format", "trace", "cast", "constraint-list"]
+              "format", "trace", "cast", "constraint-list", "in-bareword", "in-string", "is"]
